@@ -568,7 +568,7 @@ func runCase(id int, kind, expr string, rs *resSpec, projTexts []string, extraTa
 	}
 	// the t* fields are the same real observations once more: the driver computes them a second
 	// time from the expression TEXT (parser model of C07 composed with the evaluator model)
-	hx.Printf("obs %d new=ok tnew=ok perr=none pv=%s n=%d test=%s oob=%s all=%s any=%s apply=%s flag=%s fapply=%s fflag=%s omiss=0 glue=%s ttest=%s tall=%s tany=%s tapply=%s tflag=%s htest=%s\n",
+	hx.Printf("obs %d new=ok tnew=ok perr=none pv=%s n=%d test=%s oob=%s all=%s any=%s apply=%s flag=%s fapply=%s fflag=%s omiss=0 lmiss=0 glue=%s ttest=%s tall=%s tany=%s tapply=%s tflag=%s htest=%s\n",
 		id, pvS, n, test, oob, b01(all), b01(any), idxList(r1.Values), b01(flag1), idxList(r2.Values), b01(flag2), glue,
 		test, b01(all), b01(any), idxList(r2.Values), b01(flag2), htest)
 	// what the property speaks about; for n = 0 All/Any/flag are a boundary (see notes/C06.md)
@@ -586,13 +586,14 @@ func runCase(id int, kind, expr string, rs *resSpec, projTexts []string, extraTa
 var unitPool = []valSpec{
 	{"sec/op", "ns/op"}, {"B/op", ""}, {"allocs/op", ""}, {"B/s", "MB/s"}, {"ns/op", ""},
 	{"x", "x"}, {"op", ""}, {"sec/op", ""}, {"", ""}, {"B/op", "KB/op"},
+	{"MB/op", ""}, {"B/op-max", ""}, {"KiB/op", ""}, {"ns/op2", ""}, {"sec/op", "Mns/op"}, {"xx", "x"},
 }
 
 var sizes = []int{0, 1, 2, 3, 5, 8, 31, 32, 33, 40, 63, 64, 65, 96, 97, 100}
 
 func genRes(r *hx.Rand) *resSpec {
 	rs := &resSpec{}
-	name := hx.Pick(r, []string{"Foo", "Bar", "Foo-bar", "Baz", "Foo", ""})
+	name := hx.Pick(r, []string{"Foo", "Bar", "Foo-bar", "Baz", "Foo", "", "XFoo", "FooX", "XFooX", "Fo", "Barn"})
 	if r.Chance(1, 2) {
 		name += hx.Pick(r, []string{"/size=1", "/size=2", "/size=1k", "/size="})
 	}
@@ -607,7 +608,7 @@ func genRes(r *hx.Rand) *resSpec {
 	}
 	rs.name = name
 	if r.Chance(4, 5) {
-		rs.cfg = append(rs.cfg, benchfmt.Config{Key: "goos", Value: []byte(hx.Pick(r, []string{"linux", "darwin"})), File: true})
+		rs.cfg = append(rs.cfg, benchfmt.Config{Key: "goos", Value: []byte(hx.Pick(r, []string{"linux", "darwin", "linux", "linux2", "alinux"})), File: true})
 	}
 	if r.Chance(1, 2) {
 		rs.cfg = append(rs.cfg, benchfmt.Config{Key: "pkg", Value: []byte(hx.Pick(r, []string{"p/q", "p"})), File: true})
@@ -706,10 +707,19 @@ func valuesFor(r *hx.Rand, key string, rs *resSpec) []string {
 	return []string{"", "x"}
 }
 
+// fully / half anchored literals, \A…\z, (?:…) groups, escaped slashes: the literal sub-language
+// (Spec.LitRegexp); the values below contain / extend these literals (prefix, suffix, infix, exact)
+var litRePool = []string{"^Foo$", "^Fo$", "^oo$", `\AFoo\z`, "^(?:Foo)$", "(?:Foo)", "^Foo", "Foo$", "Foo", "oo", `\AFo`, `ar\z`,
+	"^Bar$", "^Ba$", "^Foo-bar$", "^bar$", "-bar$", "^linux$", "^linu$", "^inux$", "linux", "^p$", `^p\/q$`, `^p\/`,
+	`^B\/op$`, `^ns\/op$`, `^s\/op$`, `^op$`, "^ns$", "^sec$", `^sec\/op$`, `B\/op`, `\AB\/op\z`, `^(?:B\/op)$`, "^x$", "^1$", "^1k$", "^k$", "^v$", "^8$", "^16$", "^6$", "^n1$", "^n$"}
+
 var rePool = []string{"ns|sec", "^B", "op$", "^x?$", ".", "^$", "^Foo", "o+$", "[0-9]", "(a|o)r", "=1", "^(linux|p)$", "", "^.?$", "[/-]8?"}
 
 func genValue(r *hx.Rand, key string, rs *resSpec) string {
-	if r.Chance(1, 5) {
+	if r.Chance(1, 4) {
+		if r.Bool() {
+			return "/" + hx.Pick(r, litRePool) + "/"
+		}
 		return "/" + hx.Pick(r, rePool) + "/"
 	}
 	return word(r, hx.Pick(r, valuesFor(r, key, rs)), true)
